@@ -30,7 +30,10 @@ def main():
                     st = 'BUILD-FAIL'
                     err = [l for l in (b.stdout + b.stderr).splitlines() if 'error' in l][:2]
                 else:
-                    t = subprocess.run(['./testdriver'], cwd=os.path.join(REPO, '_build'), capture_output=True, text=True, timeout=600)
+                    try:
+                        t = subprocess.run(['./testdriver'], cwd=os.path.join(REPO, '_build'), capture_output=True, text=True, timeout=60)
+                    except subprocess.TimeoutExpired:
+                        out[prop + ':' + mid] = 'TESTS-HANG'; print(prop, mid, 'TESTS-HANG', flush=True); continue
                     m = re.search(r'asserts\s+(\d+)\s+(\d+)\s+(\d+)\s+(\d+)', t.stdout)
                     tm = re.search(r'tests\s+(\d+)\s+(\d+)\s+(\d+)\s+(\d+)', t.stdout)
                     ok = t.returncode == 0 and tm and tm.group(4) == '0'
